@@ -38,6 +38,11 @@ func readLine
   ensures result1 != nil ==> reader.rem == ""
   modifies reader.rem
 
+// two adjacent pieces of a string make up the piece that spans both
+lemma substr_join(s string, a int, b int, c int)
+  requires 0 <= a && a <= b && b <= c && c <= len(s)
+  ensures s[a:b] ++ s[b:c] == s[a:c]
+
 func ParseOne
   requires reader != nil
   // a value xor an error
@@ -46,6 +51,9 @@ func ParseOne
   // io.EOF marks a CLEAN end only: the input is exhausted and everything consumed since the previous entry was blank.
   // Input that ends inside an entry therefore yields a different error, never io.EOF
   ensures result1 == io.EOF ==> reader.rem == "" && (forall k int :: 0 <= k && k < len(old(reader.rem)) ==> isblk(old(reader.rem)[k]))
+  // the change text is VERBATIM: one contiguous piece of the input, byte for byte (blank lines, indentation and line
+  // endings as written)
+  ensures result1 == nil ==> (exists s int, e int :: 0 <= s && s <= e && e <= len(old(reader.rem)) && result0.Changelog == old(reader.rem)[s:e])
   // an entry is returned only after input was consumed
   ensures len(reader.rem) <= len(old(reader.rem))
   ensures result1 == nil ==> len(reader.rem) < len(old(reader.rem))
@@ -58,9 +66,18 @@ func ParseOne
     decreases len(reader.rem)
   loop 2:
     invariant -1 <= rangeindex && rangeindex < len(ranged()) && changeLog.Arguments != nil && reader != nil && len(reader.rem) < len(old(reader.rem))
+    invariant forall j int :: len(old(reader.rem)) - len(reader.rem) <= j && j < len(old(reader.rem)) ==> old(reader.rem)[j] == reader.rem[j - (len(old(reader.rem)) - len(reader.rem))]
+    invariant changeLog.Changelog == ""
     decreases len(ranged()) - rangeindex
   loop 3:
     invariant reader != nil && len(reader.rem) < len(old(reader.rem)) && changeLog.Arguments != nil
+    invariant forall j int :: len(old(reader.rem)) - len(reader.rem) <= j && j < len(old(reader.rem)) ==> old(reader.rem)[j] == reader.rem[j - (len(old(reader.rem)) - len(reader.rem))]
+    invariant at(L3.entry, len(old(reader.rem)) - len(reader.rem)) <= len(old(reader.rem)) - len(reader.rem) && at(L3.entry, len(old(reader.rem)) - len(reader.rem)) >= 0
+    invariant changeLog.Changelog == old(reader.rem)[at(L3.entry, len(old(reader.rem)) - len(reader.rem)) : len(old(reader.rem)) - len(reader.rem)]
+      by {
+        assert line#2 == old(reader.rem)[len(old(reader.rem)) - len(at(L3.head, reader.rem)) : len(old(reader.rem)) - len(reader.rem)]
+        substr_join(old(reader.rem), at(L3.entry, len(old(reader.rem)) - len(reader.rem)), len(old(reader.rem)) - len(at(L3.head, reader.rem)), len(old(reader.rem)) - len(reader.rem))
+      }
     decreases len(reader.rem)
 
 func Parse
@@ -70,7 +87,7 @@ func Parse
     invariant stream != nil
     decreases len(stream.rem)
 
-property C17: lemma blk_shift, trim, partition, readLine, ParseOne, Parse
+property C17: lemma substr_join, lemma blk_shift, trim, partition, readLine, ParseOne, Parse
 property C18: trim, partition, readLine, ParseOne, Parse
 
 @*/
